@@ -287,6 +287,25 @@ TABLE = [
      [('self.wf_spec.get_task_requires(task_spec)', True), ('self._get_task_executions(name=task_spec.get_name())', False)]),
     (('C05',), 'mistral.workflow.direct_workflow.DirectWorkflowController.evaluate_workflow_final_context', 'evaluate_upstream_context',
      [('cfg.CONF.context_versioning.enabled', True)]),
+    # ---- third batch -------------------------------------------------------
+    (('C01', 'C04', 'C12'), 'mistral.engine.task_handler._build_task_from_command', '_create_task',
+     [('isinstance(cmd, wf_cmds.RunExistingTask)', True), ('isinstance(cmd, wf_cmds.RunTask)', True), ('isinstance(cmd, wf_cmds.RunExistingTask)', False), ('isinstance(cmd, wf_cmds.SkipTask)', True), ('isinstance(cmd, wf_cmds.RunTask)', False)]),
+    (('C04',), 'mistral.workflow.direct_workflow.DirectWorkflowController._configure_if_join', '=unique_key',
+     [('cmd.task_spec.get_join()', True), ('isinstance(cmd, (commands.RunTask, commands.RunExistingTask))', True)]),
+    (('C04',), 'mistral.workflow.direct_workflow.DirectWorkflowController._configure_if_join', '=wait',
+     [('cmd.task_spec.get_join()', True), ('isinstance(cmd, (commands.RunTask, commands.RunExistingTask))', True)]),
+    (('C10', 'C04'), 'mistral.workflow.commands.restore_command_from_dict', '=wait',
+     [('isinstance(cmd, RunTask)', True)]),
+    (('C10', 'C04'), 'mistral.workflow.commands.restore_command_from_dict', '=unique_key',
+     [('isinstance(cmd, RunTask)', True)]),
+    (('C07',), 'mistral.engine.tasks.WithItemsTask._schedule_actions', '_prepare_runtime_context',
+     [('self._is_new()', True)]),
+    (('C07',), 'mistral.engine.tasks.WithItemsTask._schedule_actions', 'complete',
+     [('self._get_input_dicts(self._get_with_items_values())', False), ('self._get_input_dicts(self._get_with_items_values())', True)]),
+    (('C05',), 'mistral.workflow.data_flow.ContextView.__init__', '=dicts',
+     [("CONF.engine.merge_strategy == 'merge'", False), ("CONF.engine.merge_strategy == 'merge'", True)]),
+    (('C09',), 'mistral.engine.default_engine.DefaultEngine.on_action_complete', 'Result',
+     [('result is None', True), ('wf_action', True)]),
     # ---- refusals: `!Exc` = every `raise Exc(...)` of the function.  A
     # refusal that gains a (non-state) condition is a check that is skipped;
     # the state conditions of refusals are decided by the STATE rules
